@@ -277,14 +277,19 @@ def factorize_k(
     K12 = -K[:m, m:]
     K22 = K[m:, m:]
 
-    # Form L, the lower part of LL' = D+Y' ZZ'Y/theta
-    L11 = sp.linalg.cholesky(K11, lower=True, overwrite_a=False)
+    try:
+        # Form L, the lower part of LL' = D+Y' ZZ'Y/theta
+        L11 = sp.linalg.cholesky(K11, lower=True, overwrite_a=False)
 
-    # then form L^-1(-L_a'+R_z') in the (1,2) block.
-    L12 = sp.linalg.solve_triangular(L11, K12, lower=True, trans="N")
+        # then form L^-1(-L_a'+R_z') in the (1,2) block.
+        L12 = sp.linalg.solve_triangular(L11, K12, lower=True, trans="N")
 
-    # Form L22 from S'AA'S*theta + (L^-1(-L_a'+R_z'))'L^-1(-L_a'+R_z')
-    L22 = sp.linalg.cholesky(K22 + L12.T @ L12, lower=True)
+        # Form L22 from S'AA'S*theta + (L^-1(-L_a'+R_z'))'L^-1(-L_a'+R_z')
+        L22 = sp.linalg.cholesky(K22 + L12.T @ L12, lower=True)
+    except np.linalg.LinAlgError:
+        # nonpositive definiteness in the Cholesky factorizations (info != 0 in formk
+        # of Algorithm 778): no LEL^T factorization, the caller uses the general solve
+        return None
 
     # LK is a lower triangle of the matrix factorization LK @ E @ LK.T
     LK = np.hstack([np.vstack([L11, L12.T]), np.vstack([np.zeros(L12.shape), L22])])
